@@ -165,6 +165,7 @@ def explore_run(prop, cfg, binpath, args, out, known, tier, seed, sub="explore")
             if not rel:
                 continue
             v = rel[0]
+            la = lens_args + (["--case", f["case"]] if "case" in f else [])
             sig = (v["predicate"], re.sub(r"\d+", "#", v["message"]))
             if sig in seen_sig:
                 continue
@@ -172,7 +173,7 @@ def explore_run(prop, cfg, binpath, args, out, known, tier, seed, sub="explore")
             # confirm by isolated replay, twice
             ok = 0
             for _ in range(2):
-                rrc, rres, rerr = replay(binpath, lens_args, f["history"], sub=sub)
+                rrc, rres, rerr = replay(binpath, la, f["history"], sub=sub)
                 if rrc == 1 and (sub != "explore" or (rres and any(relevant(prop, x) for x in rres["violations"]))):
                     ok += 1
                 elif rrc not in (0, 1):
@@ -185,7 +186,7 @@ def explore_run(prop, cfg, binpath, args, out, known, tier, seed, sub="explore")
             if k:
                 out.known.append("%s (%s)" % (k.get("id", "?"), msg))
             else:
-                path = write_replay(prop, cfg, lens_args, f["history"], f["history_pretty"], f.get("epilogue_pretty", ""), vs, "oracle", sub=sub)
+                path = write_replay(prop, cfg, la, f["history"], f["history_pretty"], f.get("epilogue_pretty", ""), vs, "oracle", sub=sub)
                 out.violations.append((path, msg))
         return
     # The explorer died: crash isolation
